@@ -171,3 +171,48 @@ Inductive placed (om : module) : list str -> amodule -> amodule -> Prop :=
     resolve_at [0] (dotted op) om = Some (p, n) ->
     is_mid o o_mid -> replaced_first (dotted op) r p o_mid o1 ->
     placed om ops o1 o' -> placed om (op :: ops) o o'.
+
+(* ------------------------------------------------------------------ round 2: smaller guards *)
+(* target_unshadowed is not needed: the first node carrying the location IS the argument (proofs/C14Success.v,
+   arg_free_module: tree positions are unique identities in a freshly annotated tree) *)
+Definition guard_C14_total' (x : c14_input) : bool :=
+  guard_C14 x && addresses_resolve x && wrap_ready x.
+
+(* ------------------------------------------------------------------ round 2: several pairs, success *)
+(* find_in_ast attaches no [default] attribute on the way to any input address (the addressed input nodes are
+   assignments, class attributes, or arguments without a default value): with no template either, the input tree
+   is not mutated between the pairs *)
+Definition logs_empty (x : c14_input) : bool :=
+  forallb (fun ip => match find_in_ast_log (dotted ip) (annotate_at [1] (ci_in x)) with
+                     | Ok (_, []) => true
+                     | _ => false
+                     end) (ci_ips x).
+
+(* the input node as it sits in a statement list *)
+Definition in_stmt (x : c14_input) (ip : str) : option astmt :=
+  match find_in_ast_log (dotted ip) (annotate_at [1] (ci_in x)) with
+  | Ok (Some n, _) => match node_as_stmt n with Ok s => Some s | Err _ => None end
+  | _ => None
+  end.
+
+(* no input node holds a string constant equal to the last segment of a LATER output address (the model declines a
+   RewriteAtQuery whose search could hit a Constant's _location: const_hazard) *)
+Fixpoint hazard_free_pairs (x : c14_input) (ips ops : list str) : bool :=
+  match ips, ops with
+  | ip :: ips', op :: ops' =>
+    match in_stmt x ip with
+    | Some s => forallb (fun op' => negb (stmt_hazard (last (dotted op') []) s)) ops'
+    | None => true
+    end && hazard_free_pairs x ips' ops'
+  | _, _ => true
+  end.
+
+Definition no_wrap (x : c14_input) : bool := match ci_wrap x with None => true | Some _ => false end.
+
+Definition guard_C14_multi_total (x : c14_input) : bool :=
+  guard_C14_multi x && addresses_resolve x && no_wrap x && logs_empty x
+  && hazard_free_pairs x (ci_ips x) (ci_ops x).
+
+Definition C14_multi_total_holds (x : c14_input) : Prop :=
+  exists tree, run_C14 x = ([EvWrite FOutput tree], Ok tt)
+               /\ placed (ci_out x) (ci_ops x) (annotate_at [0] (ci_out x)) tree.
